@@ -85,7 +85,9 @@ def generate_source_code(docstring, parsed):
 
     if ignored:
         # Create a rule called "_ignored" that skips all the ignored rules.
-        refs = [Ref(x.name) for x in ignored]
+        # An anonymous rule cannot be overridden (or referred to) by name, so its
+        # expression is matched in place. A named rule is late-bound, like any Ref.
+        refs = [x.expr if x.name.startswith('_anonymous_') else Ref(x.name) for x in ignored]
 
         if super_has_ignore:
             refs.append(Ref('_super_ctx._ignored'))
